@@ -168,7 +168,7 @@ static void open_ghost_init(void) {
   OG.t_pool_destroy = OG.t_unlock = OG.t_create = OG.t_apply = 0;
   __CPROVER_assume(OG.needs_compaction == 0 || OG.needs_compaction == 1);
   KG.locked = 0; KG.lock_calls = 0; KG.unlock_calls = 0; NG.calls = 0; NG.cur_installed = 0;
-  g_held = 0; g_locks = 0; g_unlocks = 0; g_gc_allowed = 0; g_gc_calls = 0; g_copied_pending = 0; g_added_versions = 0; g_removed_total = 0;
+  g_held = 0; g_locks = 0; g_unlocks = 0; g_gc_allowed = 0; g_unprotected_outputs = 0; g_gc_calls = 0; g_copied_pending = 0; g_added_versions = 0; g_removed_total = 0;
   g_db = NULL;
   g_lock_obj_p = malloc(1); g_logger_token = malloc(1); g_lru_token = malloc(1); g_tables_token = malloc(1); g_pool_token = malloc(1); g_batch_token = malloc(1);
   g_newmem = malloc(1); g_rlogfile = malloc(1); g_rlog = malloc(1); g_rmem = malloc(1);
